@@ -18,6 +18,7 @@ func Specs() []kernel.Spec {
 	return c12LockSpecs(c13LockSpecs([]kernel.Spec{
 		{Prop: "C13", Mk: newC13, Limits: kernel.Limits{MaxSteps: 120, SettleSteps: 60}},
 		{Prop: "C12", Mk: newC12, Limits: kernel.Limits{MaxSteps: 200, SettleSteps: 120}},
+		{Prop: "C07client", Mk: newC07Client, Limits: kernel.Limits{MaxSteps: 200, SettleSteps: 120}},
 	}))
 }
 
